@@ -124,6 +124,12 @@ class RealWorld:
         client.udp_by_src.clear()
         self.mux = ssnet.Mux(DummyFile(), DummyFile())
         self.mux.chani = chani
+        # the peer's decoder: what identifier does the other end see for what this end sends?
+        self.peer = ssnet.Mux(DummyFile(), DummyFile())
+        self.peer.fill = lambda: None
+        self.peer_seen = []
+        self.peer.got_packet = lambda ch, cmd, data: self.peer_seen.append((ch, cmd))
+        self.wire_pos = len(self.mux.outbuf)
         self.handlers = []
         self.listener = FakeListener()
         self.method = FakeMethod()
@@ -141,6 +147,15 @@ class RealWorld:
         ids = sorted(k for k, v in self.mux.channels.items() if v)
         return 'chani=%d ids=%s held=%s' % (self.mux.chani, ','.join(str(i) for i in ids),
                                             ','.join(str(i) for i in self.held()))
+
+    def wire(self):
+        """Feed what this end queued since the last call to the peer's real decoder; returns [(id, cmd)] as seen there."""
+        new = self.mux.outbuf[self.wire_pos:]
+        self.wire_pos = len(self.mux.outbuf)
+        self.peer_seen = []
+        self.peer.inbuf += b''.join(new)
+        self.peer.handle()
+        return list(self.peer_seen)
 
     def held(self):
         """ids of the DNS requests and UDP associations the client still holds (and will send on)"""
@@ -297,6 +312,13 @@ def run(ctx):
     ctx.count()
     ctx.mark(('closed-app-streaming-dst',), True)
     ctx.hist('directed:closed-app-streaming-dst')
+    for which in ('dst', 'app'):
+        a, b = tg.reader_closed_keeps_sending(ctx, ctx.rng, 'C06', which)
+        t_in.append(a)
+        t_out.append(b)
+        ctx.count()
+        ctx.mark(('reader-closed-keeps-sending', which), True)
+        ctx.hist('directed:reader-closed-keeps-sending')
     tg.compare(ctx, t_in, t_out, 'C06')
     import sshuttle.ssnet as ssnet
     import sshuttle.helpers as helpers
@@ -351,6 +373,8 @@ def run(ctx):
         ctx.sample(dict(kind='alloc', input=ins[-1], real_code_output=outs[-1]))
 
         # ---- histories
+        default_max = ssnet.MAX_CHANNEL
+
         def history(maxch, chani, ops, tag):
             w = RealWorld(maxch, chani)
             lines_in = ['new %d %d %d %d' % (maxch, probes, chani, 1000)]
@@ -377,8 +401,19 @@ def run(ctx):
                             nontriv = True
                             ctx.hist('op:again')
                         elif kind == 'open':
+                            w.wire()
                             o = w.open(arg)
                             li = 'open %s' % arg
+                            if o.startswith('opened'):
+                                want_id = int(o.split()[1])
+                                seen = w.wire()
+                                opens = [ch for (ch, cmd) in seen if cmd in (w.ssnet.CMD_TCP_CONNECT, w.ssnet.CMD_DNS_REQ,
+                                                                            w.ssnet.CMD_UDP_OPEN)]
+                                if opens != [want_id] or any(ch == 0 for (ch, _c) in seen):
+                                    ctx.violation('C06:wire:peer-sees-another-id-than-the-flow-owns',
+                                                  case=dict(kind='history', max=maxch, chani=chani, ops=rops + [li]),
+                                                  expected='the open message arrives with id %d; no stream frame carries the control id 0' % want_id,
+                                                  observed='peer decoded %r' % (seen,), kind='history')
                             if o.startswith('discarded'):
                                 nontriv = True
                                 # the whole id space was probed (MAX <= probes): refusing is right only if it is full
@@ -479,6 +514,10 @@ def run(ctx):
         for kind in ['tcp', 'dns', 'udp']:
             w_ops = [('open', 'tcp')] * 3 + [('open', kind)]
             history(3, 0, w_ops, 'exhaust-' + kind)
+        # the code's own MAX_CHANNEL, cursor just below it: the last ids of the space and the wrap, through the wire
+        for kinds in (['tcp', 'dns', 'udp', 'tcp', 'tcp'], ['udp', 'udp', 'tcp', 'dns', 'tcp']):
+            history(default_max, max(default_max - 3, 0), [('open', k) for k in kinds] + [('frame', default_max), ('frame', 1)],
+                    'default-max-wrap')
         # a source silent for longer than the expiry time sends again, then the cursor wraps onto its id
         for gap in (29, 30, 31, 61):
             history(2, 0, [('open', 'udp'), ('open', 'dns'), ('tick', gap), ('again', 0), ('open', 'tcp'), ('open', 'tcp'),
@@ -539,7 +578,15 @@ def replay(ctx, rep):
                     if k == 'again':
                         w.again(int(a))
                     elif k == 'open':
+                        w.wire()
                         o = w.open(a)
+                        if o.startswith('opened'):
+                            want_id = int(o.split()[1])
+                            seen = w.wire()
+                            opens = [ch for (ch, cmd) in seen if cmd in (w.ssnet.CMD_TCP_CONNECT, w.ssnet.CMD_DNS_REQ,
+                                                                        w.ssnet.CMD_UDP_OPEN)]
+                            if opens != [want_id] or any(ch == 0 for (ch, _c) in seen):
+                                return True, 'flow opened on id %d, the peer decoded %r' % (want_id, seen)
                         if o.startswith('discarded') and case['max'] <= 1024 and len(w.live()) < case['max']:
                             return True, 'arrival %r discarded with only %d of %d ids in use' % (line, len(w.live()), case['max'])
                     elif k == 'close':
